@@ -390,6 +390,9 @@ func runG(c *lib.Ctx, cp int, wd watchdog) error {
 			if err := json.Unmarshal([]byte(line), gc); err != nil {
 				return lib.Infra("cannot parse an emitted behaviour: %v", err)
 			}
+			for i := range gc.Steps {
+				gc.Steps[i].Pc-- // TLA+ sequences are 1-based
+			}
 			cases = append(cases, gc)
 		}
 		if len(cases) == 0 {
